@@ -564,9 +564,50 @@ def dtd_rich(r):
     return doctype, body, ' x="r1"'
 
 
+def dtd_valid_doc(r, absdir, pi):
+    """a *valid* document: complete internal DTD with element-only content models, so that a validating parser reports the
+    indentation between elements as ignorable white space (which every source form must keep as text nodes)"""
+    doctype = ('<!DOCTYPE r [\n<!ELEMENT r (a | b | c)*>\n<!ELEMENT a (b*, c?)>\n<!ELEMENT b (#PCDATA)>\n<!ELEMENT c (#PCDATA | b)*>\n'
+               '<!ATTLIST r id CDATA #IMPLIED x ID #IMPLIED>\n<!ATTLIST a id CDATA #IMPLIED k CDATA "dk">\n'
+               '<!ATTLIST b id CDATA #IMPLIED>\n<!ATTLIST c id CDATA #IMPLIED>\n]>\n')
+
+    def ind(n):
+        return r.choice(["\n" + "  " * n, "\n" + "\t" * n, " ", ws_run(r)])
+    parts = []
+    for _ in range(r.range(2, 5)):
+        k = r.choice("abc")
+        if k == "a":
+            bs = "".join(ind(2) + '<b id="i%d">%s</b>' % (r.range(1, 5), xml_escape(r.choice(WORDS))) for _ in range(r.range(0, 3)))
+            cc = (ind(2) + "<c>mixed %s<b>in</b> tail </c>" % ind(3)) if r.chance(1, 2) else ""
+            parts.append(ind(1) + '<a id="i%d">%s%s%s</a>' % (r.range(1, 5), bs, cc, ind(1)))
+        elif k == "b":
+            parts.append(ind(1) + "<b>%s</b>" % xml_escape(r.choice(WORDS)))
+        else:
+            parts.append(ind(1) + "<c>%s<b/> x</c>" % ind(2))
+    return '<?xml version="1.0" encoding="UTF-8"?>\n' + doctype + pi + '<r id="i0" x="r1">%s\n</r>\n' % "".join(parts)
+
+
+def gen_opts(r, outdecl, cls):
+    """per-call options that every API layer sets in its own way (C++: XalanTransformer setters; command line: -i -e -u -m -v).
+    Boundary values included: indent amount 0."""
+    opts = []
+    if r.chance(1, 3):
+        opts.append(("indent", r.choice([0, 0, 1, 2])))
+    if r.chance(1, 5) and "UTF-16" not in outdecl:
+        opts.append(("encoding", r.choice(["ISO-8859-1", "US-ASCII", "UTF-8"])))
+    if 'method="html"' in outdecl:
+        if r.chance(1, 2):
+            opts.append(("noescape", ""))
+        if r.chance(1, 2):
+            opts.append(("omitmeta", ""))
+    if cls == "dtd-valid":
+        opts.append(("validate", ""))
+    return opts or None
+
+
 def gen_case(r, i, absdir):
     """returns dict(xml, xsl, mode, cls, probes).  absdir: directory the files will be written to (for the PI href)"""
-    cls = r.weighted([("order", 12), ("cdata-entity", 3), ("strip", 2), ("error", 1), ("big", 2), ("dtd-id", 3), ("dtd-rich", 4)])
+    cls = r.weighted([("order", 12), ("cdata-entity", 3), ("strip", 2), ("error", 1), ("big", 2), ("dtd-id", 3), ("dtd-rich", 4), ("dtd-valid", 4)])
     budget = [r.range(4, 14) if cls != "big" else r.range(40, 90)]
     body = gen_doc_tree(r, r.range(2, 4), budget)
     rootattrs = ' xmlns:p="urn:p" id="i0"'
@@ -595,9 +636,16 @@ def gen_case(r, i, absdir):
                         ("text-xml", 1), ("application-xml", 1), ("two-xsl", 2), ("after-misc", 2), ("nl-sep", 1), ("css-first", 1),
                         ("title-keyword", 1)])
     pi = stylesheet_pi(pivar, r, absdir)
+    if cls == "dtd-valid":
+        xml_valid = dtd_valid_doc(r, absdir, pi)
     xml = prolog + doctype + misc + pi + "<r%s>%s</r>" % (rootattrs, body) + r.choice(["", "\n", "\n<!--after-->", "\n<!--after--><?end pi?>\n", "<?end pi?><!--last-->"])
+    if cls == "dtd-valid":
+        xml = xml_valid
     mode, outdecl = gen_output(r)
     utf16 = mode in ("xml16", "bytes16")
+    opts = gen_opts(r, outdecl, cls)
+    if opts and any(k == "indent" for k, _ in opts) and mode in ("xml", "xml16"):
+        mode = "bytes" if mode == "xml" else "bytes16"       # setIndent(n) switches indenting on: bytes only
     nprobes = r.range(1, 4) if cls != "big" else r.range(3, 6)
     probes = r.shuffle(PROBES)[:nprobes]
     byname = dict((p[0], p) for p in PROBES)
@@ -655,6 +703,6 @@ def gen_case(r, i, absdir):
     xsl = ('<?xml version="1.0"?>\n<xsl:stylesheet version="1.0" xmlns:xsl="http://www.w3.org/1999/XSL/Transform" '
            'xmlns:p="urn:p" xmlns:q="urn:q" exclude-result-prefixes="p q">\n%s%s\n<xsl:template match="/">%s</xsl:template>\n</xsl:stylesheet>\n'
            % (outdecl, decls, root))
-    return {"xml": xml, "xsl": xsl, "mode": mode, "cls": cls, "probes": [p[0] for p in probes] + (["params"] if params else []), "nodom": cls == "cdata-entity" or nodom_unparsed, "params": params, "notree": notree, "pi": pivar, "needbase": cls == "dtd-rich",
+    return {"xml": xml, "xsl": xsl, "mode": mode, "cls": cls, "probes": [p[0] for p in probes] + (["params"] if params else []), "nodom": cls == "cdata-entity" or nodom_unparsed, "params": params, "notree": notree, "pi": pivar, "opts": opts, "needbase": cls == "dtd-rich",
             "rel_xml": "<?xml version=\"1.0\"?>\n<rel>R-%d</rel>\n" % i if cls == "dtd-rich" else None, "other_xsl": OTHER_XSL,
             "out": (outdecl.split(" ", 1)[1].rstrip("/>").replace(" ", ",").replace('"', "") if outdecl else "-")}
